@@ -213,6 +213,56 @@ def build(reg, src):
     for name in ('eval', 'call', '_eval_fn', '__call__', '__setitem__', '__delitem__', '__getitem__'):
         reg.fn(I + name, requires=[lambda s: VBool(False)], returns='opaque', verify=False)
 
+    # ---- repeatability: the parser keeps no state between parses.  Frame obligation (one per parser function, AST-structural):
+    # no parser function stores into the interpreter object (self.<attr> = ..., self.<attr>[...] = ..., del, op=) except
+    # parse_module's `_module`; the functions of parser.py have no interpreter to write to (klong is only passed through).
+    def parser_frame(ctx):
+        import ast as _ast
+        rows = []
+        allowed = {('parse_module', '_module')}
+        keys = [I + n for n in ('prog', '_expr', '_factor', '_read_fn_args', '_apply_adverbs', 'parse_module', '_is_monad', '_is_dyad', 'current_module')] + \
+               [P + n for n in ('read_cond', 'read_expr_array', 'kg_read', 'kg_read_array', 'read_list')]
+        for k in keys:
+            fn = src.find(k)
+            if fn is None:
+                continue
+            name = k.split('.')[-1].split('::')[-1]
+            bad = []
+            for n in _ast.walk(fn):
+                tg = []
+                if isinstance(n, _ast.Assign):
+                    tg = n.targets
+                elif isinstance(n, (_ast.AugAssign, _ast.AnnAssign)):
+                    tg = [n.target]
+                elif isinstance(n, _ast.Delete):
+                    tg = n.targets
+                for t in tg:
+                    for x in (_ast.walk(t) if isinstance(t, (_ast.Tuple, _ast.List)) else [t]):
+                        root, attr = x, None
+                        while isinstance(root, (_ast.Attribute, _ast.Subscript)):
+                            if isinstance(root, _ast.Attribute) and isinstance(root.value, _ast.Name):
+                                attr = root.attr
+                            root = root.value
+                        if isinstance(root, _ast.Name) and root.id in ('self', 'klong') and isinstance(x, (_ast.Attribute, _ast.Subscript)) \
+                                and (name, attr) not in allowed:
+                            bad.append(f"line {n.lineno}: {_ast.unparse(n)[:70]}")
+            rows.append(dict(name=f"{k}#frame.writes-no-interpreter-state", ok=not bad, backend='ast-structural',
+                             detail=('; '.join(bad[:3]) + ' - parser state that survives the parse: a later parse of the same text may differ') if bad
+                             else 'no store into the interpreter object'))
+        bad_rows = [r for r in rows if not r['ok']]
+        if bad_rows:
+            from pyvc.run import run_replay
+            from replay import c12 as rp12
+            rr = run_replay(rp12.replay_reparse, {}, bad_rows[0]['name'], timeout_s=120)
+            for b in bad_rows:
+                b['confirmed'] = bool(rr.get('confirmed'))
+                b['replay'] = dict(result=rr)
+                if rr.get('confirmed'):
+                    b['detail'] += f" | real code: {rr.get('detail')}"
+        return rows
+    parser_frame.__name__ = 'parser-frame'
+    reg.extra_checks.append(parser_frame)
+
     from replay import c12 as rp
     reg.replays.append((r'#call\d*:KlongInterpreter\.(eval|call|_eval_fn|__call__|__setitem__|__delitem__|__getitem__)', rp.replay_parse_effects))
     reg.replays.append((r'#call\d*:.*\.pre\d+$', rp.replay_work_bound))
